@@ -72,6 +72,7 @@ let () =
        Buffer.add_string prog text
    | "compare" ->
        Compare.has_ge := has "--has-ge";
+       Compare.rank0 := has "--rank0";
        for k = 1 to count do
          let id = Printf.sprintf "%s%d" (get "--prefix" "c" args) k in
          let cs, kinds = Compare.gen_case () in
